@@ -8,6 +8,7 @@ import Mathlib.Data.List.Nodup
 
 set_option linter.unusedSimpArgs false
 set_option linter.unusedVariables false
+set_option linter.unusedSectionVars false
 
 namespace Earverif.AdmRefs
 variable {ι : Type} [DecidableEq ι] (up : ι → ι)
@@ -372,5 +373,1052 @@ theorem withoutDuplicates_of_distinct (l : List (Elem ι)) (h : DistinctIds up l
     exact List.Nodup.of_map _ h2
   rw [dedupKeys_of_nodup _ hkn, hmap l (fun _ h => h), hnone]
   rfl
+
+/-! ### the resolution loop: what no step changes -/
+
+/-- the part of an element that no resolution step changes -/
+def core (e : Elem ι) : Oid × Cls × Option ι × List (Oid × Option ι) := (e.oid, e.cls, e.id, e.avs)
+
+def fieldAt (st : List (Elem ι)) (t : Nat × Nat) : Option (Field ι) := (st[t.1]?).bind fun e => e.fields[t.2]?
+
+theorem lookupIdx_core (st st' : List (Elem ι)) (h : st.map core = st'.map core) (k : ι) :
+    lookupIdx up st k = lookupIdx up st' k := by
+  have : ∀ s : List (Elem ι), lookupIdx up s k =
+      (s.map core).findIdx? (fun c => decide (c.2.2.1.map up = some (up k))) := by
+    intro s
+    unfold lookupIdx
+    rw [List.findIdx?_map]
+    rfl
+  rw [this st, this st', h]
+
+theorem getElem?_core (st st' : List (Elem ι)) (h : st.map core = st'.map core) (i : Nat) :
+    (st[i]?).map core = (st'[i]?).map core := by
+  have := congrArg (fun l => l[i]?) h
+  simpa using this
+
+theorem oidAt_core (st st' : List (Elem ι)) (h : st.map core = st'.map core) (i : Option Nat) :
+    oidAt st i = oidAt st' i := by
+  cases i with
+  | none => rfl
+  | some i =>
+    have := getElem?_core st st' h i
+    simp only [oidAt, Option.bind_some]
+    cases h1 : st[i]? <;> cases h2 : st'[i]? <;> simp [h1, h2, core] at this ⊢
+    exact this.1
+
+theorem getElem?_modify' {α : Type} (st : List α) (i : Nat) (g : α → α) (j : Nat) :
+    (st.modify i g)[j]? = if i = j then (st[j]?).map g else st[j]? := by
+  rw [List.getElem?_modify]
+  by_cases h : i = j <;> cases st[j]? <;> simp [h]
+
+theorem core_modify (st : List (Elem ι)) (i : Nat) (g : Elem ι → Elem ι) (hg : ∀ e, core (g e) = core e) :
+    (st.modify i g).map core = st.map core := by
+  apply List.ext_getElem?
+  intro j
+  simp only [List.getElem?_map, getElem?_modify']
+  split
+  · cases st[j]? <;> simp [hg]
+  · rfl
+
+theorem fieldAt_modify_keep (st : List (Elem ι)) (i : Nat) (g : Elem ι → Elem ι) (hg : ∀ e, (g e).fields = e.fields)
+    (t : Nat × Nat) : fieldAt (st.modify i g) t = fieldAt st t := by
+  unfold fieldAt
+  simp only [getElem?_modify']
+  split
+  · cases st[t.1]? <;> simp [hg]
+  · rfl
+
+theorem fieldAt_setField (st : List (Elem ι)) (i j : Nat) (f : Field ι) (t : Nat × Nat) :
+    fieldAt (setField st i j f) t =
+      if t = (i, j) then (fieldAt st t).map (fun _ => f) else fieldAt st t := by
+  obtain ⟨a, b⟩ := t
+  unfold fieldAt setField
+  simp only [getElem?_modify', Prod.mk.injEq]
+  by_cases hi : i = a
+  · subst hi
+    simp only [if_true, true_and]
+    cases st[i]? with
+    | none => simp
+    | some e =>
+      simp only [Option.map_some, Option.bind_some, List.getElem?_set]
+      by_cases hj : j = b
+      · subst hj
+        simp only [if_true]
+        by_cases hlt : j < e.fields.length
+        · simp [hlt, List.getElem?_eq_getElem hlt]
+        · simp [hlt, List.getElem?_eq_none (Nat.le_of_not_lt hlt)]
+      · have : ¬ b = j := fun h => hj h.symm
+        simp [hj, this]
+  · have : ¬ a = i := fun h => hi h.symm
+    simp [hi, this]
+
+/-! ### generic folds in `Except` -/
+
+theorem foldlM_inv {S α E : Type} (f : S → α → Except E S) (P : S → Prop) (R : S → S → Prop)
+    (hrefl : ∀ s, R s s) (htrans : ∀ a b c, R a b → R b c → R a c) (l : List α)
+    (hstep : ∀ s a, a ∈ l → P s → ∃ s', f s a = .ok s' ∧ P s' ∧ R s s') :
+    ∀ s, P s → ∃ s', l.foldlM f s = .ok s' ∧ P s' ∧ R s s' := by
+  induction l with
+  | nil => intro s hs; exact ⟨s, rfl, hs, hrefl s⟩
+  | cons a l ih =>
+    intro s hs
+    obtain ⟨s1, h1, hp1, hr1⟩ := hstep s a (by simp) hs
+    obtain ⟨s2, h2, hp2, hr2⟩ := ih (fun s a ha hp => hstep s a (by simp [ha]) hp) s1 hp1
+    exact ⟨s2, by simp [List.foldlM_cons, h1, h2, bind, Except.bind], hp2, htrans _ _ _ hr1 hr2⟩
+
+theorem foldlM_err {S α E : Type} (f : S → α → Except E S) (P : S → Prop) (x : E) (l : List α)
+    (hstep : ∀ s a, a ∈ l → P s → (∃ s', f s a = .ok s' ∧ P s') ∨ f s a = .error x)
+    (hbad : ∃ a ∈ l, ∀ s, P s → f s a = .error x) :
+    ∀ s, P s → l.foldlM f s = .error x := by
+  induction l with
+  | nil => obtain ⟨a, ha, _⟩ := hbad; simp at ha
+  | cons a l ih =>
+    intro s hs
+    rcases hstep s a (by simp) hs with ⟨s1, h1, hp1⟩ | he
+    · obtain ⟨b, hb, hbe⟩ := hbad
+      rcases List.mem_cons.mp hb with rfl | hb'
+      · rw [hbe s hs] at h1; cases h1
+      · simp only [List.foldlM_cons, h1, bind, Except.bind]
+        exact ih (fun s a ha hp => hstep s a (by simp [ha]) hp) ⟨b, hb', hbe⟩ s1 hp1
+    · simp [List.foldlM_cons, he, bind, Except.bind]
+
+/-! ### lookups of a reference list -/
+
+theorem mapM_lookupRef_ok (st : List (Elem ι)) (silent : Bool) : ∀ (refs : List (Option ι)),
+    (∀ r ∈ refs, (r = none → silent = true) ∧ (∀ k, r = some k → ∃ i, lookupIdx up st k = some i)) →
+    refs.mapM (lookupRef up st silent) = .ok (refs.map fun r => r.bind (lookupIdx up st)) := by
+  intro refs
+  induction refs with
+  | nil => intro _; rfl
+  | cons r rs ih =>
+    intro h
+    obtain ⟨h1, h2⟩ := h r (by simp)
+    have hr : lookupRef up st silent r = .ok (r.bind (lookupIdx up st)) := by
+      cases r with
+      | none => simp [lookupRef, h1 rfl]
+      | some k => obtain ⟨i, hi⟩ := h2 k rfl; simp [lookupRef, hi]
+    simp [List.mapM_cons, hr, ih (fun r' hr' => h r' (by simp [hr'])), bind, Except.bind, pure, Except.pure]
+
+theorem mapM_lookupRef_err (st : List (Elem ι)) (silent : Bool) : ∀ (refs : List (Option ι)),
+    (∀ r ∈ refs, r = none → silent = true) → (∃ r ∈ refs, ∃ k, r = some k ∧ lookupIdx up st k = none) →
+    refs.mapM (lookupRef up st silent) = .error .keyError := by
+  intro refs
+  induction refs with
+  | nil => intro _ h; obtain ⟨r, hr, _⟩ := h; simp at hr
+  | cons r rs ih =>
+    intro h1 h2
+    cases r with
+    | none =>
+      have := h1 none (by simp) rfl
+      subst this
+      obtain ⟨r', hr', k, hk, hl⟩ := h2
+      have hr'' : r' ∈ rs := by
+        rcases List.mem_cons.mp hr' with rfl | h
+        · cases hk
+        · exact h
+      simp [List.mapM_cons, lookupRef, ih (fun r hr => h1 r (by simp [hr])) ⟨r', hr'', k, hk, hl⟩, bind,
+        Except.bind]
+    | some k =>
+      cases hl : lookupIdx up st k with
+      | none => simp [List.mapM_cons, lookupRef, hl, bind, Except.bind]
+      | some i =>
+        obtain ⟨r', hr', k', hk', hl'⟩ := h2
+        have hr'' : r' ∈ rs := by
+          rcases List.mem_cons.mp hr' with rfl | h
+          · injection hk' with hk'; subst hk'; rw [hl] at hl'; cases hl'
+          · exact h
+        simp [List.mapM_cons, lookupRef, hl, ih (fun r hr => h1 r (by simp [hr])) ⟨r', hr'', k', hk', hl'⟩, bind,
+          Except.bind]
+
+theorem getElem?_findIdx? {α : Type} (p : α → Bool) (l : List α) :
+    (l.findIdx? p).bind (fun i => l[i]?) = l.find? p := by
+  induction l with
+  | nil => rfl
+  | cons x xs ih =>
+    simp only [List.findIdx?_cons, List.find?_cons]
+    cases hp : p x
+    · simp only [Bool.false_eq_true, if_false]
+      rw [← ih]
+      cases xs.findIdx? p <;> simp
+    · simp
+
+theorem oidAt_lookupIdx (st : List (Elem ι)) (k : ι) :
+    oidAt st (lookupIdx up st k) = (lookup up st k).map (·.oid) := by
+  unfold lookup lookupIdx
+  rw [← getElem?_findIdx?]
+  cases h : st.findIdx? (matchesKey up k) <;> simp [oidAt, h]
+
+/-! ### the link attributes -/
+
+/-- every audioTrackFormat that is linked to a stream is linked to the stream `σ` names for it -/
+def LinkInv (σ : Oid → Oid) (st : List (Elem ι)) : Prop :=
+  ∀ (i : Nat) (e : Elem ι), st[i]? = some e → ∀ s, e.streamLink = some s → s = σ e.oid
+
+/-- the loop state is the initial chain up to field contents and link attributes, and the links agree with `σ` -/
+def Good (σ : Oid → Oid) (st0 st : List (Elem ι)) : Prop := st.map core = st0.map core ∧ LinkInv σ st
+
+def SameFields (st st' : List (Elem ι)) : Prop := ∀ t, fieldAt st' t = fieldAt st t
+
+theorem linkInv_modify (σ : Oid → Oid) (st : List (Elem ι)) (i : Nat) (g : Elem ι → Elem ι)
+    (hg : ∀ e, st[i]? = some e → (g e).oid = e.oid ∧ ∀ s, (g e).streamLink = some s → s = σ e.oid)
+    (h : LinkInv σ st) : LinkInv σ (st.modify i g) := by
+  unfold LinkInv
+  intro j e he s hs
+  rw [getElem?_modify'] at he
+  split at he
+  · rename_i hij; subst hij
+    cases hst : st[i]? with
+    | none => simp [hst] at he
+    | some e0 =>
+      simp only [hst, Option.map_some, Option.some.injEq] at he
+      subst he
+      obtain ⟨ho, hl⟩ := hg e0 hst
+      rw [ho]; exact hl s hs
+  · exact h j e he s hs
+
+theorem addEncode_good (σ : Oid → Oid) (st0 st : List (Elem ι)) (d : Nat) (o : Oid) (hG : Good σ st0 st)
+    (hd : ∀ e, st[d]? = some e → e.cls = .pack) :
+    ∃ st', addEncode st d o = .ok st' ∧ Good σ st0 st' ∧ SameFields st st' := by
+  unfold addEncode
+  cases hst : st[d]? with
+  | none => exact ⟨st, rfl, hG, fun _ => rfl⟩
+  | some de =>
+    simp only [hd de hst, ne_eq, not_true_eq_false, if_false]
+    split
+    · exact ⟨st, rfl, hG, fun _ => rfl⟩
+    · refine ⟨_, rfl, ⟨?_, ?_⟩, ?_⟩
+      · refine (core_modify st _ _ ?_).trans hG.1
+        intro e; rfl
+      · exact linkInv_modify σ st d _ (fun e he => ⟨rfl, fun s hs => hG.2 d e he s hs⟩) hG.2
+      · intro t; apply fieldAt_modify_keep; intro e; rfl
+
+theorem linkTrackStream_good (σ : Oid → Oid) (st0 st : List (Elem ι)) (ti : Nat) (so : Oid) (hG : Good σ st0 st)
+    (ht : ∀ e, st[ti]? = some e → e.cls = .track ∧ σ e.oid = so) :
+    ∃ st', linkTrackStream st ti so = .ok st' ∧ Good σ st0 st' ∧ SameFields st st' := by
+  unfold linkTrackStream
+  cases hst : st[ti]? with
+  | none => exact ⟨st, rfl, hG, fun _ => rfl⟩
+  | some te =>
+    obtain ⟨hc, hs⟩ := ht te hst
+    simp only [hc, ne_eq, not_true_eq_false, if_false]
+    cases hl : te.streamLink with
+    | some s =>
+      have := hG.2 ti te hst s hl
+      simp only [this, hs, ne_eq, not_true_eq_false, if_false]
+      exact ⟨st, rfl, hG, fun _ => rfl⟩
+    | none =>
+      refine ⟨_, rfl, ⟨?_, ?_⟩, ?_⟩
+      · refine (core_modify st _ _ ?_).trans hG.1
+        intro e; rfl
+      · exact linkInv_modify σ st ti _ (fun e he => ⟨rfl, fun s hs' => by
+          simp only [Option.some.injEq] at hs'
+          rw [hst] at he; injection he with he; subst he
+          rw [← hs', hs]⟩) hG.2
+      · intro t; apply fieldAt_modify_keep; intro e; rfl
+
+/-! ### one step of the loop -/
+
+/-- what the step for reference `r` of a field of `self` with mode `m` needs in order not to raise anything but
+`KeyError`: `None` only where the silent track may stand; the pack found by a `decodePackFormatIDRef` is an
+audioPackFormat, `encodePackFormatIDRef` sits on an audioPackFormat; the element found by a stream's
+`audioTrackFormatIDRef` is an audioTrackFormat whose stream (`σ`) is this stream; an audioTrackFormat's
+`audioStreamFormatIDRef` finds the stream `σ` names for it -/
+def RefOK (σ : Oid → Oid) (st0 : List (Elem ι)) (self : Elem ι) (m : Mode) (r : Option ι) : Prop :=
+  match r with
+  | none => m = .silentOK
+  | some k => ∀ (i : Nat) (tgt : Elem ι), lookupIdx up st0 k = some i → st0[i]? = some tgt →
+      (m = .decode → tgt.cls = .pack) ∧ (m = .encode → self.cls = .pack) ∧
+      (m = .linkTracks → tgt.cls = .track ∧ σ tgt.oid = self.oid) ∧
+      (m = .linkStream → self.cls = .track ∧ σ self.oid = tgt.oid)
+
+/-- the reference names no element of the document -/
+def Dangling (st0 : List (Elem ι)) (r : Option ι) : Prop := ∃ k, r = some k ∧ lookupIdx up st0 k = none
+
+structure Static (σ : Oid → Oid) (st0 : List (Elem ι)) : Prop where
+  link : LinkInv σ st0
+  refs : ∀ (i : Nat) (e : Elem ι), st0[i]? = some e → ∀ f ∈ e.fields, f.mode ≠ .avs → ∀ refs, f.pending = some refs →
+    ∀ r ∈ refs, RefOK up σ st0 e f.mode r
+
+structure Inv (σ : Oid → Oid) (st0 st : List (Elem ι)) : Prop where
+  good : Good σ st0 st
+  field : ∀ t f, fieldAt st t = some f → f.pending = none ∨ fieldAt st0 t = some f
+
+theorem inv_refl (σ : Oid → Oid) (st0 : List (Elem ι)) (h : LinkInv σ st0) : Inv σ st0 st0 :=
+  ⟨⟨rfl, h⟩, fun _ _ hf => Or.inr hf⟩
+
+theorem good_getElem? (σ : Oid → Oid) (st0 s : List (Elem ι)) (hG : Good σ st0 s) (i : Nat) (x : Elem ι)
+    (hx : s[i]? = some x) : ∃ x0, st0[i]? = some x0 ∧ core x = core x0 := by
+  have := getElem?_core s st0 hG.1 i
+  rw [hx] at this
+  cases h0 : st0[i]? with
+  | none => simp [h0] at this
+  | some x0 => exact ⟨x0, rfl, by simpa [h0] using this⟩
+
+theorem good_setField (σ : Oid → Oid) (st0 s : List (Elem ι)) (hG : Good σ st0 s) (i j : Nat) (f : Field ι) :
+    Good σ st0 (setField s i j f) := by
+  unfold setField
+  refine ⟨?_, ?_⟩
+  · refine (core_modify s _ _ ?_).trans hG.1
+    intro e; rfl
+  · exact linkInv_modify σ s i _ (fun e he => ⟨rfl, fun x hx => hG.2 i e he x hx⟩) hG.2
+
+/-- what a successful step leaves: the invariant, every other field untouched, the field itself resolved
+(`IDRef = None`) with the same name and mode -/
+def StepOK (σ : Oid → Oid) (st0 st : List (Elem ι)) (t : Nat × Nat) (f : Field ι) (st' : List (Elem ι)) : Prop :=
+  Inv σ st0 st' ∧ (∀ t', t' ≠ t → fieldAt st' t' = fieldAt st t') ∧
+    ∃ f', fieldAt st' t = some f' ∧ f'.pending = none ∧ f'.name = f.name ∧ f'.mode = f.mode
+
+theorem finish_setField (σ : Oid → Oid) (st0 st st2 : List (Elem ι)) (t : Nat × Nat) (f f' : Field ι)
+    (hI : Inv σ st0 st) (hG : Good σ st0 st2) (hF : SameFields st st2) (hf : fieldAt st t = some f)
+    (hp : f'.pending = none) (hn : f'.name = f.name) (hm : f'.mode = f.mode) :
+    StepOK σ st0 st t f (setField st2 t.1 t.2 f') ∧ fieldAt (setField st2 t.1 t.2 f') t = some f' := by
+  have hat : fieldAt (setField st2 t.1 t.2 f') t = some f' := by
+    rw [fieldAt_setField, if_pos rfl, hF t, hf]; rfl
+  have hother : ∀ t', t' ≠ t → fieldAt (setField st2 t.1 t.2 f') t' = fieldAt st t' := by
+    intro t' hne
+    rw [fieldAt_setField, if_neg hne, hF t']
+  refine ⟨⟨⟨good_setField σ st0 st2 hG _ _ _, ?_⟩, hother, f', hat, hp, hn, hm⟩, hat⟩
+  intro t' g hg
+  by_cases hne : t' = t
+  · subst hne
+    rw [hat] at hg; injection hg with hg; subst hg
+    exact Or.inl hp
+  · rw [hother t' hne] at hg
+    exact hI.field t' g hg
+
+/-- the context of a step whose field has a pending reference list -/
+structure Ctx (σ : Oid → Oid) (st0 st : List (Elem ι)) (t : Nat × Nat) (e : Elem ι) (f : Field ι)
+    (refs : List (Option ι)) : Prop where
+  he : st[t.1]? = some e
+  hf : e.fields[t.2]? = some f
+  hp : f.pending = some refs
+  e0 : ∃ e0, st0[t.1]? = some e0 ∧ core e = core e0 ∧ ∀ r ∈ refs, f.mode ≠ .avs → RefOK up σ st0 e0 f.mode r
+
+theorem ctx_of (σ : Oid → Oid) (st0 st : List (Elem ι)) (hS : Static up σ st0) (hI : Inv σ st0 st) (t : Nat × Nat)
+    (e : Elem ι) (f : Field ι) (refs : List (Option ι)) (he : st[t.1]? = some e) (hf : e.fields[t.2]? = some f)
+    (hp : f.pending = some refs) : Ctx up σ st0 st t e f refs := by
+  refine ⟨he, hf, hp, ?_⟩
+  have hat : fieldAt st t = some f := by simp [fieldAt, he, hf]
+  rcases hI.field t f hat with h | h
+  · rw [hp] at h; cases h
+  · obtain ⟨e0, he0, hc⟩ := good_getElem? σ st0 st hI.good t.1 e he
+    refine ⟨e0, he0, hc, ?_⟩
+    intro r hr hm
+    have hf0 : e0.fields[t.2]? = some f := by simpa [fieldAt, he0] using h
+    exact hS.refs t.1 e0 he0 f (List.mem_of_getElem? hf0) hm refs hp r hr
+
+theorem refs_resolvable (σ : Oid → Oid) (st0 st : List (Elem ι)) (hG : Good σ st0 st) (refs : List (Option ι))
+    (hnd : ¬ ∃ r ∈ refs, Dangling up st0 r) : ∀ r ∈ refs, ∀ k, r = some k → ∃ i, lookupIdx up st k = some i := by
+  intro r hr k hk
+  rw [lookupIdx_core up st st0 hG.1]
+  cases h : lookupIdx up st0 k with
+  | some i => exact ⟨i, rfl⟩
+  | none => exact absurd ⟨r, hr, k, hk, h⟩ hnd
+
+theorem step_plain (σ : Oid → Oid) (st0 st : List (Elem ι)) (hI : Inv σ st0 st) (t : Nat × Nat) (e : Elem ι)
+    (f : Field ι) (refs : List (Option ι)) (C : Ctx up σ st0 st t e f refs)
+    (hm : f.mode = .plain ∨ f.mode = .silentOK) :
+    ((¬ ∃ r ∈ refs, Dangling up st0 r) → ∃ st', step up st t = .ok st' ∧ StepOK σ st0 st t f st' ∧
+      ∃ f', fieldAt st' t = some f' ∧
+        f'.resolved = refs.map (fun r => r.bind fun k => (lookup up st0 k).map (·.oid))) ∧
+    ((∃ r ∈ refs, Dangling up st0 r) → step up st t = .error .keyError) := by
+  obtain ⟨he, hf, hp, e0, he0, hc, hok⟩ := C
+  have hat : fieldAt st t = some f := by simp [fieldAt, he, hf]
+  have hnone : ∀ r ∈ refs, r = none → f.mode = .silentOK := by
+    intro r hr hn
+    have := hok r hr (by rcases hm with h | h <;> simp [h])
+    subst hn
+    exact this
+  constructor
+  · intro hnd
+    have hres := refs_resolvable up σ st0 st hI.good refs hnd
+    have hval : (refs.map fun r => r.bind (lookupIdx up st)).map (oidAt st)
+        = refs.map (fun r => r.bind fun k => (lookup up st0 k).map (·.oid)) := by
+      rw [List.map_map]
+      apply List.map_congr_left
+      intro r _
+      cases r with
+      | none => rfl
+      | some k =>
+        simp only [Function.comp, Option.bind_some]
+        rw [← oidAt_lookupIdx, lookupIdx_core up st st0 hI.good.1, oidAt_core st st0 hI.good.1]
+    rcases hm with hmode | hmode
+    · have hmap := mapM_lookupRef_ok up st false refs (fun r hr =>
+        ⟨fun hn => (by have := hnone r hr hn; rw [hmode] at this; cases this), hres r hr⟩)
+      obtain ⟨hstep, hat'⟩ := finish_setField σ st0 st st t f
+        { f with pending := none, resolved := (refs.map fun r => r.bind (lookupIdx up st)).map (oidAt st) }
+        hI hI.good (fun _ => rfl) hat rfl rfl rfl
+      refine ⟨_, ?_, hstep, _, hat', hval⟩
+      unfold step
+      simp only [he, hf, hp, hmode, hmap, bind, Except.bind, pure, Except.pure]
+    · have hmap := mapM_lookupRef_ok up st true refs (fun r hr => ⟨fun _ => rfl, hres r hr⟩)
+      obtain ⟨hstep, hat'⟩ := finish_setField σ st0 st st t f
+        { f with pending := none, resolved := (refs.map fun r => r.bind (lookupIdx up st)).map (oidAt st) }
+        hI hI.good (fun _ => rfl) hat rfl rfl rfl
+      refine ⟨_, ?_, hstep, _, hat', hval⟩
+      unfold step
+      simp only [he, hf, hp, hmode, hmap, bind, Except.bind, pure, Except.pure]
+  · rintro ⟨r, hr, k, hk, hl⟩
+    have hl' : lookupIdx up st k = none := by rw [lookupIdx_core up st st0 hI.good.1]; exact hl
+    rcases hm with hmode | hmode
+    · have := mapM_lookupRef_err up st false refs
+        (fun r hr hn => by have := hnone r hr hn; rw [hmode] at this; cases this) ⟨r, hr, k, hk, hl'⟩
+      unfold step
+      simp only [he, hf, hp, hmode, this, bind, Except.bind]
+    · have := mapM_lookupRef_err up st true refs (fun _ _ _ => rfl) ⟨r, hr, k, hk, hl'⟩
+      unfold step
+      simp only [he, hf, hp, hmode, this, bind, Except.bind]
+
+theorem sameFields_refl (st : List (Elem ι)) : SameFields st st := fun _ => rfl
+theorem sameFields_trans (a b c : List (Elem ι)) (h1 : SameFields a b) (h2 : SameFields b c) : SameFields a c :=
+  fun t => (h2 t).trans (h1 t)
+
+theorem mem_map_bind_lookup (st : List (Elem ι)) (refs : List (Option ι)) (r' : Option Nat) (d : Nat)
+    (hr' : r' ∈ refs.map fun r => r.bind (lookupIdx up st)) (hd : r' = some d) :
+    ∃ k, some k ∈ refs ∧ lookupIdx up st k = some d := by
+  obtain ⟨r, hr, hrr⟩ := List.mem_map.mp hr'
+  subst hd
+  cases r with
+  | none => simp at hrr
+  | some k => exact ⟨k, hr, by simpa using hrr⟩
+
+theorem step_decode (σ : Oid → Oid) (st0 st : List (Elem ι)) (hI : Inv σ st0 st) (t : Nat × Nat) (e : Elem ι)
+    (f : Field ι) (refs : List (Option ι)) (C : Ctx up σ st0 st t e f refs) (hm : f.mode = .decode) :
+    ((¬ ∃ r ∈ refs, Dangling up st0 r) → ∃ st', step up st t = .ok st' ∧ StepOK σ st0 st t f st') ∧
+    ((∃ r ∈ refs, Dangling up st0 r) → step up st t = .error .keyError) := by
+  obtain ⟨he, hf, hp, e0, he0, hc, hok⟩ := C
+  have hat : fieldAt st t = some f := by simp [fieldAt, he, hf]
+  have hnone : ∀ r ∈ refs, r = none → False := by
+    intro r hr hn
+    have := hok r hr (by simp [hm])
+    subst hn
+    simp [RefOK, hm] at this
+  constructor
+  · intro hnd
+    have hres := refs_resolvable up σ st0 st hI.good refs hnd
+    have hmap := mapM_lookupRef_ok up st false refs (fun r hr => ⟨fun hn => (hnone r hr hn).elim, hres r hr⟩)
+    obtain ⟨st2, h2, hG2, hF2⟩ := foldlM_inv (decodeOne e.oid) (Good σ st0) SameFields sameFields_refl
+      sameFields_trans (refs.map fun r => r.bind (lookupIdx up st)) (by
+        intro s r' hr' hP
+        cases r' with
+        | none => exact ⟨s, rfl, hP, sameFields_refl s⟩
+        | some d =>
+          obtain ⟨k, hk, hl⟩ := mem_map_bind_lookup up st refs (some d) d hr' rfl
+          rw [lookupIdx_core up st st0 hI.good.1] at hl
+          exact addEncode_good σ st0 s d e.oid hP (by
+            intro x hx
+            obtain ⟨x0, hx0, hcx⟩ := good_getElem? σ st0 s hP d x hx
+            have := (hok (some k) hk (by simp [hm]) d x0 hl hx0).1 hm
+            simp only [core, Prod.mk.injEq] at hcx
+            rw [hcx.2.1]; exact this)) st hI.good
+    obtain ⟨hstep, _⟩ := finish_setField σ st0 st st2 t f { f with pending := none } hI hG2 hF2 hat rfl rfl rfl
+    refine ⟨_, ?_, hstep⟩
+    unfold step
+    simp only [he, hf, hp, hm, hmap, h2, bind, Except.bind, pure, Except.pure]
+  · rintro ⟨r, hr, k, hk, hl⟩
+    have hl' : lookupIdx up st k = none := by rw [lookupIdx_core up st st0 hI.good.1]; exact hl
+    have := mapM_lookupRef_err up st false refs (fun r hr hn => (hnone r hr hn).elim) ⟨r, hr, k, hk, hl'⟩
+    unfold step
+    simp only [he, hf, hp, hm, this, bind, Except.bind]
+
+theorem step_encode (σ : Oid → Oid) (st0 st : List (Elem ι)) (hI : Inv σ st0 st) (t : Nat × Nat) (e : Elem ι)
+    (f : Field ι) (refs : List (Option ι)) (C : Ctx up σ st0 st t e f refs) (hm : f.mode = .encode) :
+    ((¬ ∃ r ∈ refs, Dangling up st0 r) → ∃ st', step up st t = .ok st' ∧ StepOK σ st0 st t f st') ∧
+    ((∃ r ∈ refs, Dangling up st0 r) → step up st t = .error .keyError) := by
+  obtain ⟨he, hf, hp, e0, he0, hc, hok⟩ := C
+  have hat : fieldAt st t = some f := by simp [fieldAt, he, hf]
+  have hnone : ∀ r ∈ refs, r = none → False := by
+    intro r hr hn
+    have := hok r hr (by simp [hm])
+    subst hn
+    simp [RefOK, hm] at this
+  constructor
+  · intro hnd
+    have hres := refs_resolvable up σ st0 st hI.good refs hnd
+    have hmap := mapM_lookupRef_ok up st false refs (fun r hr => ⟨fun hn => (hnone r hr hn).elim, hres r hr⟩)
+    obtain ⟨st2, h2, hG2, hF2⟩ := foldlM_inv (encodeOne t.1) (Good σ st0) SameFields sameFields_refl
+      sameFields_trans (refs.map fun r => r.bind (lookupIdx up st)) (by
+        intro s r' hr' hP
+        unfold encodeOne
+        cases ho : oidAt s r' with
+        | none => exact ⟨s, rfl, hP, sameFields_refl s⟩
+        | some o =>
+          cases r' with
+          | none => simp [oidAt] at ho
+          | some d =>
+            obtain ⟨k, hk, hl⟩ := mem_map_bind_lookup up st refs (some d) d hr' rfl
+            rw [lookupIdx_core up st st0 hI.good.1] at hl
+            have hsd : ∃ y, s[d]? = some y := by
+              cases h : s[d]? with
+              | none => simp [oidAt, h] at ho
+              | some y => exact ⟨y, rfl⟩
+            obtain ⟨y, hy⟩ := hsd
+            obtain ⟨y0, hy0, _⟩ := good_getElem? σ st0 s hP d y hy
+            exact addEncode_good σ st0 s t.1 o hP (by
+              intro x hx
+              obtain ⟨x0, hx0, hcx⟩ := good_getElem? σ st0 s hP t.1 x hx
+              rw [he0] at hx0; injection hx0 with hx0; subst hx0
+              have := (hok (some k) hk (by simp [hm]) d y0 hl hy0).2.1 hm
+              simp only [core, Prod.mk.injEq] at hcx
+              rw [hcx.2.1]; exact this)) st hI.good
+    obtain ⟨hstep, _⟩ := finish_setField σ st0 st st2 t f { f with pending := none } hI hG2 hF2 hat rfl rfl rfl
+    refine ⟨_, ?_, hstep⟩
+    unfold step
+    simp only [he, hf, hp, hm, hmap, h2, bind, Except.bind, pure, Except.pure]
+  · rintro ⟨r, hr, k, hk, hl⟩
+    have hl' : lookupIdx up st k = none := by rw [lookupIdx_core up st st0 hI.good.1]; exact hl
+    have := mapM_lookupRef_err up st false refs (fun r hr hn => (hnone r hr hn).elim) ⟨r, hr, k, hk, hl'⟩
+    unfold step
+    simp only [he, hf, hp, hm, this, bind, Except.bind]
+
+theorem linkTracksOne_cases (σ : Oid → Oid) (st0 : List (Elem ι)) (e e0 : Elem ι) (hc : core e = core e0)
+    (r : Option ι) (hok : RefOK up σ st0 e0 .linkTracks r) (s : List (Elem ι)) (hP : Good σ st0 s) :
+    ((¬ Dangling up st0 r) → ∃ s', linkTracksOne up e.oid s r = .ok s' ∧ Good σ st0 s' ∧ SameFields s s') ∧
+    (Dangling up st0 r → linkTracksOne up e.oid s r = .error .keyError) := by
+  cases r with
+  | none => simp [RefOK] at hok
+  | some k =>
+    constructor
+    · intro hnd
+      cases hl : lookupIdx up st0 k with
+      | none => exact absurd ⟨k, rfl, hl⟩ hnd
+      | some i =>
+        have hl' : lookupIdx up s k = some i := by rw [lookupIdx_core up s st0 hP.1]; exact hl
+        obtain ⟨s', h1, h2, h3⟩ := linkTrackStream_good σ st0 s i e.oid hP (by
+          intro x hx
+          obtain ⟨x0, hx0, hcx⟩ := good_getElem? σ st0 s hP i x hx
+          have := (hok i x0 hl hx0).2.2.1 rfl
+          simp only [core, Prod.mk.injEq] at hcx hc
+          rw [hcx.1, hcx.2.1, hc.1]; exact this)
+        refine ⟨s', ?_, h2, h3⟩
+        simp only [linkTracksOne, lookupRef, hl', bind, Except.bind, h1]
+    · rintro ⟨k', hk', hl⟩
+      injection hk' with hk'; subst hk'
+      have hl' : lookupIdx up s k = none := by rw [lookupIdx_core up s st0 hP.1]; exact hl
+      simp only [linkTracksOne, lookupRef, hl', bind, Except.bind]
+
+theorem linkStreamOne_cases (σ : Oid → Oid) (st0 : List (Elem ι)) (ti : Nat) (e0 : Elem ι) (he0 : st0[ti]? = some e0)
+    (r : Option ι) (hok : RefOK up σ st0 e0 .linkStream r) (s : List (Elem ι)) (hP : Good σ st0 s) :
+    ((¬ Dangling up st0 r) → ∃ s', linkStreamOne up ti s r = .ok s' ∧ Good σ st0 s' ∧ SameFields s s') ∧
+    (Dangling up st0 r → linkStreamOne up ti s r = .error .keyError) := by
+  cases r with
+  | none => simp [RefOK] at hok
+  | some k =>
+    constructor
+    · intro hnd
+      cases hl : lookupIdx up st0 k with
+      | none => exact absurd ⟨k, rfl, hl⟩ hnd
+      | some i =>
+        have hl' : lookupIdx up s k = some i := by rw [lookupIdx_core up s st0 hP.1]; exact hl
+        cases ho : oidAt s (some i) with
+        | none =>
+          exact ⟨s, by simp only [linkStreamOne, lookupRef, hl', bind, Except.bind, ho]; rfl, hP, sameFields_refl s⟩
+        | some so =>
+          have hsi : ∃ y, s[i]? = some y ∧ y.oid = so := by
+            cases h : s[i]? with
+            | none => simp [oidAt, h] at ho
+            | some y => exact ⟨y, rfl, by simpa [oidAt, h] using ho⟩
+          obtain ⟨y, hy, hyo⟩ := hsi
+          obtain ⟨y0, hy0, hcy⟩ := good_getElem? σ st0 s hP i y hy
+          obtain ⟨s', h1, h2, h3⟩ := linkTrackStream_good σ st0 s ti so hP (by
+            intro x hx
+            obtain ⟨x0, hx0, hcx⟩ := good_getElem? σ st0 s hP ti x hx
+            rw [he0] at hx0; injection hx0 with hx0; subst hx0
+            have := (hok i y0 hl hy0).2.2.2 rfl
+            simp only [core, Prod.mk.injEq] at hcx hcy
+            rw [hcx.1, hcx.2.1, ← hyo, hcy.1]; exact this)
+          refine ⟨s', ?_, h2, h3⟩
+          simp only [linkStreamOne, lookupRef, hl', bind, Except.bind, ho, h1]
+    · rintro ⟨k', hk', hl⟩
+      injection hk' with hk'; subst hk'
+      have hl' : lookupIdx up s k = none := by rw [lookupIdx_core up s st0 hP.1]; exact hl
+      simp only [linkStreamOne, lookupRef, hl', bind, Except.bind]
+
+/-- a fold whose steps either keep the invariant or raise `x` exactly at the marked elements -/
+theorem foldlM_cases {S α E : Type} (f : S → α → Except E S) (P : S → Prop) (R : S → S → Prop) (B : α → Prop) (x : E)
+    (hrefl : ∀ s, R s s) (htrans : ∀ a b c, R a b → R b c → R a c) (l : List α)
+    (hstep : ∀ s a, a ∈ l → P s → ((¬ B a) → ∃ s', f s a = .ok s' ∧ P s' ∧ R s s') ∧ (B a → f s a = .error x)) :
+    ∀ s, P s → ((¬ ∃ a ∈ l, B a) → ∃ s', l.foldlM f s = .ok s' ∧ P s' ∧ R s s') ∧
+      ((∃ a ∈ l, B a) → l.foldlM f s = .error x) := by
+  intro s hs
+  constructor
+  · intro hnb
+    exact foldlM_inv f P R hrefl htrans l (fun s a ha hp => (hstep s a ha hp).1 (fun hb => hnb ⟨a, ha, hb⟩)) s hs
+  · rintro ⟨a, ha, hb⟩
+    refine foldlM_err f P x l (fun s b hb' hp => ?_) ⟨a, ha, fun s hp => (hstep s a ha hp).2 hb⟩ s hs
+    by_cases hB : B b
+    · exact Or.inr ((hstep s b hb' hp).2 hB)
+    · obtain ⟨s', h1, h2, _⟩ := (hstep s b hb' hp).1 hB
+      exact Or.inl ⟨s', h1, h2⟩
+
+theorem step_linkTracks (σ : Oid → Oid) (st0 st : List (Elem ι)) (hI : Inv σ st0 st) (t : Nat × Nat) (e : Elem ι)
+    (f : Field ι) (refs : List (Option ι)) (C : Ctx up σ st0 st t e f refs) (hm : f.mode = .linkTracks) :
+    ((¬ ∃ r ∈ refs, Dangling up st0 r) → ∃ st', step up st t = .ok st' ∧ StepOK σ st0 st t f st') ∧
+    ((∃ r ∈ refs, Dangling up st0 r) → step up st t = .error .keyError) := by
+  obtain ⟨he, hf, hp, e0, he0, hc, hok⟩ := C
+  have hat : fieldAt st t = some f := by simp [fieldAt, he, hf]
+  have hfold := foldlM_cases (linkTracksOne up e.oid) (Good σ st0) SameFields (Dangling up st0) Err.keyError
+    sameFields_refl sameFields_trans refs (fun s r hr hP =>
+      linkTracksOne_cases up σ st0 e e0 hc r (by have := hok r hr (by simp [hm]); rwa [hm] at this) s hP) st hI.good
+  constructor
+  · intro hnd
+    obtain ⟨st2, h2, hG2, hF2⟩ := hfold.1 hnd
+    obtain ⟨hstep, _⟩ := finish_setField σ st0 st st2 t f { f with pending := none } hI hG2 hF2 hat rfl rfl rfl
+    refine ⟨_, ?_, hstep⟩
+    unfold step
+    simp only [he, hf, hp, hm, h2, bind, Except.bind, pure, Except.pure]
+  · intro hd
+    unfold step
+    simp only [he, hf, hp, hm, hfold.2 hd, bind, Except.bind]
+
+theorem step_linkStream (σ : Oid → Oid) (st0 st : List (Elem ι)) (hI : Inv σ st0 st) (t : Nat × Nat) (e : Elem ι)
+    (f : Field ι) (refs : List (Option ι)) (C : Ctx up σ st0 st t e f refs) (hm : f.mode = .linkStream) :
+    ((¬ ∃ r ∈ refs, Dangling up st0 r) → ∃ st', step up st t = .ok st' ∧ StepOK σ st0 st t f st') ∧
+    ((∃ r ∈ refs, Dangling up st0 r) → step up st t = .error .keyError) := by
+  obtain ⟨he, hf, hp, e0, he0, hc, hok⟩ := C
+  have hat : fieldAt st t = some f := by simp [fieldAt, he, hf]
+  have hfold := foldlM_cases (linkStreamOne up t.1) (Good σ st0) SameFields (Dangling up st0) Err.keyError
+    sameFields_refl sameFields_trans refs (fun s r hr hP =>
+      linkStreamOne_cases up σ st0 t.1 e0 he0 r (by have := hok r hr (by simp [hm]); rwa [hm] at this) s hP) st hI.good
+  constructor
+  · intro hnd
+    obtain ⟨st2, h2, hG2, hF2⟩ := hfold.1 hnd
+    obtain ⟨hstep, _⟩ := finish_setField σ st0 st st2 t f { f with pending := none } hI hG2 hF2 hat rfl rfl rfl
+    refine ⟨_, ?_, hstep⟩
+    unfold step
+    simp only [he, hf, hp, hm, h2, bind, Except.bind, pure, Except.pure]
+  · intro hd
+    unfold step
+    simp only [he, hf, hp, hm, hfold.2 hd, bind, Except.bind]
+
+/-! ### the whole loop -/
+
+/-- the value `lazy_lookup_references` stores for a plain reference list: for each id the element `lookup_element`
+finds in the document as it was before the loop (`None` stays `None`) -/
+def resolvedValue (st0 : List (Elem ι)) (refs : List (Option ι)) : List (Option Oid) :=
+  refs.map fun r => r.bind fun k => (lookup up st0 k).map (·.oid)
+
+/-- the field at `t` still has its `IDRef` list and one of the ids names nothing -/
+def DanglingAt (st0 st : List (Elem ι)) (t : Nat × Nat) : Prop :=
+  ∃ f refs, fieldAt st t = some f ∧ f.mode ≠ .avs ∧ f.pending = some refs ∧ ∃ r ∈ refs, Dangling up st0 r
+
+/-- the field at `t` after its step, in terms of the field before -/
+def StepDone (st0 st st' : List (Elem ι)) (t : Nat × Nat) : Prop :=
+  ∀ f, fieldAt st t = some f →
+    ((f.pending = none ∨ f.mode = .avs) → fieldAt st' t = some f) ∧
+    (∀ refs, f.pending = some refs → f.mode ≠ .avs → ∃ f', fieldAt st' t = some f' ∧ f'.pending = none ∧
+      f'.name = f.name ∧ f'.mode = f.mode ∧
+      ((f.mode = .plain ∨ f.mode = .silentOK) → f'.resolved = resolvedValue up st0 refs))
+
+theorem step_cases (σ : Oid → Oid) (st0 st : List (Elem ι)) (hS : Static up σ st0) (hI : Inv σ st0 st) (t : Nat × Nat) :
+    ((¬ DanglingAt up st0 st t) → ∃ st', step up st t = .ok st' ∧ Inv σ st0 st' ∧
+      (∀ t', t' ≠ t → fieldAt st' t' = fieldAt st t') ∧ StepDone up st0 st st' t) ∧
+    (DanglingAt up st0 st t → step up st t = .error .keyError) := by
+  have trivialOK : step up st t = .ok st → (∀ f, fieldAt st t = some f → f.pending = none ∨ f.mode = .avs) →
+      ∃ st', step up st t = .ok st' ∧ Inv σ st0 st' ∧
+        (∀ t', t' ≠ t → fieldAt st' t' = fieldAt st t') ∧ StepDone up st0 st st' t := by
+    intro h hf
+    refine ⟨st, h, hI, fun _ _ => rfl, ?_⟩
+    intro f hff
+    refine ⟨fun _ => hff, ?_⟩
+    intro refs hp hm
+    rcases hf f hff with h' | h'
+    · rw [hp] at h'; cases h'
+    · exact absurd h' hm
+  cases he : st[t.1]? with
+  | none =>
+    have hs : step up st t = .ok st := by unfold step; simp only [he]
+    have hn : fieldAt st t = none := by simp [fieldAt, he]
+    exact ⟨fun _ => trivialOK hs (fun f hf => by rw [hn] at hf; cases hf),
+      fun ⟨f, refs, hf, _⟩ => by rw [hn] at hf; cases hf⟩
+  | some e =>
+    cases hf : e.fields[t.2]? with
+    | none =>
+      have hs : step up st t = .ok st := by unfold step; simp only [he, hf]
+      have hn : fieldAt st t = none := by simp [fieldAt, he, hf]
+      exact ⟨fun _ => trivialOK hs (fun f hf => by rw [hn] at hf; cases hf),
+        fun ⟨f, refs, hf, _⟩ => by rw [hn] at hf; cases hf⟩
+    | some f =>
+      have hat : fieldAt st t = some f := by simp [fieldAt, he, hf]
+      cases hp : f.pending with
+      | none =>
+        have hs : step up st t = .ok st := by unfold step; simp only [he, hf, hp]
+        exact ⟨fun _ => trivialOK hs (fun g hg => by rw [hat] at hg; injection hg with hg; subst hg; exact Or.inl hp),
+          fun ⟨g, refs, hg, _, hgp, _⟩ => by
+            rw [hat] at hg; injection hg with hg; subst hg; rw [hp] at hgp; cases hgp⟩
+      | some refs =>
+        have C := ctx_of up σ st0 st hS hI t e f refs he hf hp
+        have hdang : DanglingAt up st0 st t ↔ (f.mode ≠ .avs ∧ ∃ r ∈ refs, Dangling up st0 r) := by
+          constructor
+          · rintro ⟨g, refs', hg, hgm, hgp, hd⟩
+            rw [hat] at hg; injection hg with hg; subst hg
+            rw [hp] at hgp; injection hgp with hgp; subst hgp
+            exact ⟨hgm, hd⟩
+          · rintro ⟨hm, hd⟩
+            exact ⟨f, refs, hat, hm, hp, hd⟩
+        -- the generic wrap-up of the mode lemmas
+        have wrap : f.mode ≠ .avs →
+            (((¬ ∃ r ∈ refs, Dangling up st0 r) → ∃ st', step up st t = .ok st' ∧ StepOK σ st0 st t f st' ∧
+              ((f.mode = .plain ∨ f.mode = .silentOK) → ∃ f', fieldAt st' t = some f' ∧
+                f'.resolved = resolvedValue up st0 refs)) ∧
+             ((∃ r ∈ refs, Dangling up st0 r) → step up st t = .error .keyError)) →
+            ((¬ DanglingAt up st0 st t) → ∃ st', step up st t = .ok st' ∧ Inv σ st0 st' ∧
+              (∀ t', t' ≠ t → fieldAt st' t' = fieldAt st t') ∧ StepDone up st0 st st' t) ∧
+            (DanglingAt up st0 st t → step up st t = .error .keyError) := by
+          intro hm ⟨h1, h2⟩
+          constructor
+          · intro hnd
+            obtain ⟨st', hs, ⟨hI', hfr, f', hf', hp', hn', hm'⟩, hres⟩ :=
+              h1 (fun hd => hnd (hdang.mpr ⟨hm, hd⟩))
+            refine ⟨st', hs, hI', hfr, ?_⟩
+            intro g hg
+            rw [hat] at hg; injection hg with hg; subst hg
+            refine ⟨fun h => ?_, ?_⟩
+            · rcases h with h | h
+              · rw [hp] at h; cases h
+              · exact absurd h hm
+            · intro refs' hp'' _
+              rw [hp] at hp''; injection hp'' with hp''; subst hp''
+              refine ⟨f', hf', hp', hn', hm', ?_⟩
+              intro hpl
+              obtain ⟨f'', hf'', hr''⟩ := hres hpl
+              rw [hf'] at hf''; injection hf'' with hf''; subst hf''
+              exact hr''
+          · intro hd
+            exact h2 (hdang.mp hd).2
+        cases hm : f.mode with
+        | avs =>
+          have hs : step up st t = .ok st := by unfold step; simp only [he, hf, hp, hm]
+          exact ⟨fun _ => trivialOK hs (fun g hg => by
+              rw [hat] at hg; injection hg with hg; subst hg; exact Or.inr hm),
+            fun hd => absurd hm (hdang.mp hd).1⟩
+        | plain =>
+          have := step_plain up σ st0 st hI t e f refs C (Or.inl hm)
+          refine wrap (by simp [hm]) ⟨fun hnd => ?_, fun hd => ?_⟩
+          · obtain ⟨st', h1, h2, f', h3, h4⟩ := this.1 hnd
+            exact ⟨st', h1, h2, fun _ => ⟨f', h3, h4⟩⟩
+          · exact this.2 hd
+        | silentOK =>
+          have := step_plain up σ st0 st hI t e f refs C (Or.inr hm)
+          refine wrap (by simp [hm]) ⟨fun hnd => ?_, fun hd => ?_⟩
+          · obtain ⟨st', h1, h2, f', h3, h4⟩ := this.1 hnd
+            exact ⟨st', h1, h2, fun _ => ⟨f', h3, h4⟩⟩
+          · exact this.2 hd
+        | decode =>
+          have := step_decode up σ st0 st hI t e f refs C hm
+          refine wrap (by simp [hm]) ⟨fun hnd => ?_, this.2⟩
+          obtain ⟨st', h1, h2⟩ := this.1 hnd
+          exact ⟨st', h1, h2, fun h => by rcases h with h | h <;> rw [hm] at h <;> cases h⟩
+        | encode =>
+          have := step_encode up σ st0 st hI t e f refs C hm
+          refine wrap (by simp [hm]) ⟨fun hnd => ?_, this.2⟩
+          obtain ⟨st', h1, h2⟩ := this.1 hnd
+          exact ⟨st', h1, h2, fun h => by rcases h with h | h <;> rw [hm] at h <;> cases h⟩
+        | linkTracks =>
+          have := step_linkTracks up σ st0 st hI t e f refs C hm
+          refine wrap (by simp [hm]) ⟨fun hnd => ?_, this.2⟩
+          obtain ⟨st', h1, h2⟩ := this.1 hnd
+          exact ⟨st', h1, h2, fun h => by rcases h with h | h <;> rw [hm] at h <;> cases h⟩
+        | linkStream =>
+          have := step_linkStream up σ st0 st hI t e f refs C hm
+          refine wrap (by simp [hm]) ⟨fun hnd => ?_, this.2⟩
+          obtain ⟨st', h1, h2⟩ := this.1 hnd
+          exact ⟨st', h1, h2, fun h => by rcases h with h | h <;> rw [hm] at h <;> cases h⟩
+
+theorem danglingAt_congr (st0 st st' : List (Elem ι)) (t : Nat × Nat) (h : fieldAt st' t = fieldAt st t) :
+    DanglingAt up st0 st' t ↔ DanglingAt up st0 st t := by
+  unfold DanglingAt; rw [h]
+
+theorem stepDone_congr (st0 st st1 st' st'' : List (Elem ι)) (t : Nat × Nat) (h1 : fieldAt st1 t = fieldAt st t)
+    (h2 : fieldAt st'' t = fieldAt st' t) (h : StepDone up st0 st1 st' t) : StepDone up st0 st st'' t := by
+  unfold StepDone at *
+  rw [← h1, h2]; exact h
+
+/-- the statements of the loop, each field at most once: no `KeyError` iff no live field has a dangling id -/
+theorem run_tasks (σ : Oid → Oid) (st0 : List (Elem ι)) (hS : Static up σ st0) :
+    ∀ (ts : List (Nat × Nat)), ts.Nodup → ∀ st, Inv σ st0 st →
+      ((¬ ∃ t ∈ ts, DanglingAt up st0 st t) → ∃ st', ts.foldlM (step up) st = .ok st' ∧ Inv σ st0 st' ∧
+        (∀ t, t ∉ ts → fieldAt st' t = fieldAt st t) ∧ (∀ t ∈ ts, StepDone up st0 st st' t)) ∧
+      ((∃ t ∈ ts, DanglingAt up st0 st t) → ts.foldlM (step up) st = .error .keyError) := by
+  intro ts
+  induction ts with
+  | nil =>
+    intro _ st hI
+    refine ⟨fun _ => ⟨st, rfl, hI, fun _ _ => rfl, fun t ht => by simp at ht⟩, ?_⟩
+    rintro ⟨t, ht, _⟩; simp at ht
+  | cons t ts ih =>
+    intro hnd st hI
+    rw [List.nodup_cons] at hnd
+    obtain ⟨hc1, hc2⟩ := step_cases up σ st0 st hS hI t
+    by_cases hdt : DanglingAt up st0 st t
+    · have herr : (t :: ts).foldlM (step up) st = .error .keyError := by
+        simp [List.foldlM_cons, hc2 hdt, bind, Except.bind]
+      exact ⟨fun h => absurd ⟨t, by simp, hdt⟩ h, fun _ => herr⟩
+    · obtain ⟨st1, hs1, hI1, hfr1, hdone1⟩ := hc1 hdt
+      obtain ⟨ih1, ih2⟩ := ih hnd.2 st1 hI1
+      have hne : ∀ t' ∈ ts, t' ≠ t := fun t' ht' h => hnd.1 (h ▸ ht')
+      have hfold : (t :: ts).foldlM (step up) st = ts.foldlM (step up) st1 := by
+        simp [List.foldlM_cons, hs1, bind, Except.bind]
+      constructor
+      · intro hno
+        obtain ⟨st', hs', hI', hfr', hdone'⟩ := ih1 (by
+          rintro ⟨t', ht', hd'⟩
+          exact hno ⟨t', by simp [ht'], (danglingAt_congr up st0 st st1 t' (hfr1 t' (hne t' ht'))).mp hd'⟩)
+        refine ⟨st', by rw [hfold]; exact hs', hI', ?_, ?_⟩
+        · intro t' ht'
+          simp only [List.mem_cons, not_or] at ht'
+          rw [hfr' t' ht'.2, hfr1 t' ht'.1]
+        · intro t' ht'
+          rcases List.mem_cons.mp ht' with rfl | ht''
+          · exact stepDone_congr up st0 st st st1 st' t' rfl (hfr' t' hnd.1) hdone1
+          · exact stepDone_congr up st0 st st1 st' st' t' (hfr1 t' (hne t' ht'')) rfl (hdone' t' ht'')
+      · rintro ⟨t', ht', hd'⟩
+        rw [hfold]
+        rcases List.mem_cons.mp ht' with rfl | ht''
+        · exact absurd hd' hdt
+        · exact ih2 ⟨t', ht'', (danglingAt_congr up st0 st st1 t' (hfr1 t' (hne t' ht''))).mpr hd'⟩
+
+theorem nodup_tasks (st : List (Elem ι)) : (tasks st).Nodup := by
+  unfold tasks
+  rw [List.nodup_flatMap]
+  refine ⟨?_, ?_⟩
+  · intro i _
+    exact (List.nodup_range).map (fun a b h => by simpa using h)
+  · have hr : (List.range st.length).Pairwise (· ≠ ·) := List.nodup_range
+    refine hr.imp ?_
+    intro a b hab
+    simp only [Function.onFun]
+    intro x hx hy
+    obtain ⟨j, _, rfl⟩ := List.mem_map.mp hx
+    obtain ⟨j', _, hj'⟩ := List.mem_map.mp hy
+    simp only [Prod.mk.injEq] at hj'
+    exact hab hj'.1.symm
+
+theorem mem_tasks_of_fieldAt (st : List (Elem ι)) (t : Nat × Nat) (f : Field ι) (h : fieldAt st t = some f) :
+    t ∈ tasks st := by
+  obtain ⟨i, j⟩ := t
+  unfold fieldAt at h
+  cases he : st[i]? with
+  | none => simp [he] at h
+  | some e =>
+    simp only [he, Option.bind_some] at h
+    have hi : i < st.length := by
+      by_contra hh
+      rw [List.getElem?_eq_none (Nat.le_of_not_lt hh)] at he; cases he
+    have hj : j < e.fields.length := by
+      by_contra hh
+      rw [List.getElem?_eq_none (Nat.le_of_not_lt hh)] at h; cases h
+    unfold tasks
+    rw [List.mem_flatMap]
+    refine ⟨i, List.mem_range.mpr hi, ?_⟩
+    rw [List.mem_map]
+    exact ⟨j, List.mem_range.mpr (by simp [he, hj]), rfl⟩
+
+/-! ### the alternativeValueSet pass -/
+
+theorem avsTable_core : ∀ (st st' : List (Elem ι)), st.map core = st'.map core →
+    (st.filter (·.cls = .object)).flatMap (·.avs) = (st'.filter (·.cls = .object)).flatMap (·.avs) := by
+  intro st
+  induction st with
+  | nil => intro st' h; cases st' <;> simp at h ⊢
+  | cons e es ih =>
+    intro st' h
+    cases st' with
+    | nil => simp at h
+    | cons e' es' =>
+      simp only [List.map_cons, List.cons.injEq] at h
+      obtain ⟨hc, ht⟩ := h
+      simp only [core, Prod.mk.injEq] at hc
+      have := ih es' ht
+      simp only [List.filter_cons, hc.2.1]
+      split <;> simp [this, hc.2.2.2]
+
+theorem mapM_pointwise {α β E : Type} (g : α → Except E β) : ∀ (l : List α),
+    (∀ (i : Nat) (x : α), l[i]? = some x → ∃ y, g x = .ok y) →
+    ∃ ys : List β, l.mapM g = .ok ys ∧ ys.length = l.length ∧
+      ∀ (i : Nat) (x : α), l[i]? = some x → ∃ y, ys[i]? = some y ∧ g x = .ok y := by
+  intro l
+  induction l with
+  | nil => intro _; exact ⟨[], rfl, rfl, fun i x h => by simp at h⟩
+  | cons a l ih =>
+    intro h
+    obtain ⟨b, hb⟩ := h 0 a (by simp)
+    obtain ⟨ys, hys, hlen, hpt⟩ := ih (fun i x hx => h (i + 1) x (by simpa using hx))
+    refine ⟨b :: ys, by simp [List.mapM_cons, hb, hys, bind, Except.bind, pure, Except.pure], by simp [hlen], ?_⟩
+    intro i x hx
+    cases i with
+    | zero => simp only [List.getElem?_cons_zero, Option.some.injEq] at hx; subst hx; exact ⟨b, by simp, hb⟩
+    | succ i => simp only [List.getElem?_cons_succ] at hx ⊢; exact hpt i x hx
+
+/-- the alternativeValueSets of the audioObjects have pairwise distinct ids, and every `alternativeValueSetIDRef` of an
+audioProgramme / audioContent names one of them -/
+structure AvsOK (st0 : List (Elem ι)) : Prop where
+  table : ∃ tbl, avsTable up st0 = .ok tbl
+  refs : ∀ tbl, avsTable up st0 = .ok tbl → ∀ (i : Nat) (e : Elem ι), st0[i]? = some e →
+    ∀ f ∈ e.fields, f.mode = .avs → ∀ refs, f.pending = some refs → ∀ r ∈ refs, ∃ o, getAvs up tbl r = .ok o
+
+theorem avsPass_spec (σ : Oid → Oid) (st0 st1 : List (Elem ι)) (hI : Inv σ st0 st1) (hA : AvsOK up st0) :
+    ∃ st2, avsPass up st1 = .ok st2 ∧ st2.length = st1.length ∧
+      (∀ t f, fieldAt st1 t = some f → f.mode ≠ .avs → fieldAt st2 t = some f) := by
+  obtain ⟨tbl, htbl⟩ := hA.table
+  have htbl1 : avsTable up st1 = .ok tbl := by
+    unfold avsTable at htbl ⊢
+    rw [avsTable_core st1 st0 hI.good.1]; exact htbl
+  -- one field
+  let h : Field ι → Except Err (Field ι) := fun f =>
+    if f.mode ≠ .avs then pure f else
+    match f.pending with
+    | none => pure f
+    | some refs => do
+      let rs ← refs.mapM (getAvs up tbl)
+      pure { f with pending := none, resolved := rs }
+  have hfield : ∀ (i : Nat) (e : Elem ι), st1[i]? = some e → ∀ (j : Nat) (f : Field ι), e.fields[j]? = some f →
+      ∃ f', h f = .ok f' ∧ (f.mode ≠ .avs → f' = f) := by
+    intro i e he j f hf
+    by_cases hm : f.mode ≠ .avs
+    · exact ⟨f, by simp [h, hm, pure, Except.pure], fun _ => rfl⟩
+    · have hm' : f.mode = .avs := by simpa using hm
+      cases hp : f.pending with
+      | none => exact ⟨f, by simp [h, hm', hp, pure, Except.pure], fun hh => absurd hm' hh⟩
+      | some refs =>
+        have hat : fieldAt st1 (i, j) = some f := by simp [fieldAt, he, hf]
+        rcases hI.field (i, j) f hat with hh | hh
+        · rw [hp] at hh; cases hh
+        · obtain ⟨e0, he0, _⟩ := good_getElem? σ st0 st1 hI.good i e he
+          have hf0 : e0.fields[j]? = some f := by simpa [fieldAt, he0] using hh
+          have hall := hA.refs tbl htbl i e0 he0 f (List.mem_of_getElem? hf0) hm' refs hp
+          obtain ⟨rs, hrs, _, _⟩ := mapM_pointwise (getAvs up tbl) refs (fun k r hr => hall r (List.mem_of_getElem? hr))
+          exact ⟨{ f with pending := none, resolved := rs }, by
+            simp [h, hm', hp, hrs, bind, Except.bind, pure, Except.pure], fun hh => absurd hm' hh⟩
+  have helem : ∀ (i : Nat) (e : Elem ι), st1[i]? = some e →
+      ∃ e', avsElem up tbl e = .ok e' ∧
+        ∀ (j : Nat) (f : Field ι), e.fields[j]? = some f → f.mode ≠ .avs → e'.fields[j]? = some f := by
+    intro i e he
+    unfold avsElem
+    by_cases hc : e.cls ≠ .programme ∧ e.cls ≠ .content
+    · exact ⟨e, by simp [hc, pure, Except.pure], fun j f hf _ => hf⟩
+    · obtain ⟨fs, hfs, hlen, hpt⟩ := mapM_pointwise h e.fields (fun j f hf => by
+        obtain ⟨f', hf', _⟩ := hfield i e he j f hf; exact ⟨f', hf'⟩)
+      refine ⟨{ e with fields := fs }, ?_, ?_⟩
+      · simp only [hc, if_false]
+        show (do let fs ← e.fields.mapM h; pure { e with fields := fs } : Except Err (Elem ι)) = _
+        simp [hfs, bind, Except.bind, pure, Except.pure]
+      · intro j f hf hm
+        obtain ⟨y, hy, hhy⟩ := hpt j f hf
+        obtain ⟨f', hf', hsame⟩ := hfield i e he j f hf
+        rw [hhy] at hf'; injection hf' with hf'; subst hf'
+        rw [hsame hm] at hy
+        exact hy
+  obtain ⟨st2, hst2, hlen2, hpt2⟩ := mapM_pointwise (avsElem up tbl) st1 (fun i e he => by
+    obtain ⟨e', he', _⟩ := helem i e he; exact ⟨e', he'⟩)
+  refine ⟨st2, by unfold avsPass; simp [htbl1, hst2, bind, Except.bind], hlen2, ?_⟩
+  intro t f hf hm
+  obtain ⟨i, j⟩ := t
+  unfold fieldAt at hf ⊢
+  cases he : st1[i]? with
+  | none => simp [he] at hf
+  | some e =>
+    simp only [he, Option.bind_some] at hf
+    obtain ⟨e2, he2, hav⟩ := hpt2 i e he
+    obtain ⟨e', he', hfe'⟩ := helem i e he
+    rw [hav] at he'; injection he' with he'; subst he'
+    simp only [he2, Option.bind_some]
+    exact hfe' j f hf hm
+
+/-! ### the chain -/
+
+/-- every id in every (non-alternativeValueSet) `IDRef` attribute of the chain names an element of the chain -/
+def Closed (st0 : List (Elem ι)) : Prop := ¬ ∃ t, DanglingAt up st0 st0 t
+
+theorem length_of_good (σ : Oid → Oid) (st0 st : List (Elem ι)) (h : Good σ st0 st) : st.length = st0.length := by
+  have := congrArg List.length h.1
+  simpa using this
+
+/-- **Totality and value on a closed chain.**  No step raises; afterwards every plain reference field that had an
+`IDRef` list holds, for each id, the element `lookup_element` finds for it (`None` for the silent track), and its
+`IDRef` attribute is `None`; a field whose `IDRef` was `None` is as before. -/
+theorem resolveChain_closed (σ : Oid → Oid) (st0 : List (Elem ι)) (hS : Static up σ st0) (hA : AvsOK up st0)
+    (hC : Closed up st0) :
+    ∃ st', resolveChain up st0 = .ok st' ∧ st'.length = st0.length ∧
+      ∀ t f, fieldAt st0 t = some f → (f.mode = .plain ∨ f.mode = .silentOK) →
+        ∃ f', fieldAt st' t = some f' ∧ f'.name = f.name ∧ f'.mode = f.mode ∧
+          (∀ refs, f.pending = some refs → f'.pending = none ∧ f'.resolved = resolvedValue up st0 refs) ∧
+          (f.pending = none → f' = f) := by
+  obtain ⟨h1, _⟩ := run_tasks up σ st0 hS (tasks st0) (nodup_tasks st0) st0 (inv_refl σ st0 hS.link)
+  obtain ⟨st1, hs1, hI1, _, hdone⟩ := h1 (fun ⟨t, _, hd⟩ => hC ⟨t, hd⟩)
+  obtain ⟨st2, hs2, hlen2, hkeep⟩ := avsPass_spec up σ st0 st1 hI1 hA
+  refine ⟨st2, by unfold resolveChain; simp [hs1, hs2, bind, Except.bind],
+    by rw [hlen2, length_of_good σ st0 st1 hI1.good], ?_⟩
+  intro t f hf hm
+  have hnavs : f.mode ≠ .avs := by rcases hm with h | h <;> simp [h]
+  obtain ⟨hd1, hd2⟩ := hdone t (mem_tasks_of_fieldAt st0 t f hf) f hf
+  cases hp : f.pending with
+  | none =>
+    have h1 := hd1 (Or.inl hp)
+    exact ⟨f, hkeep t f h1 hnavs, rfl, rfl, fun refs h => (by cases h), fun _ => rfl⟩
+  | some refs =>
+    obtain ⟨f', hf', hp', hn', hm', hres⟩ := hd2 refs hp hnavs
+    refine ⟨f', hkeep t f' hf' (by rw [hm']; exact hnavs), hn', hm', ?_, fun h => (by cases h)⟩
+    intro refs' h
+    injection h with h; subst h
+    exact ⟨hp', hres hm⟩
+
+/-- **A dangling reference is a `KeyError`**, whatever else the document contains (the link conditions of `Static`
+exclude the two other exceptions the loop can raise) -/
+theorem resolveChain_dangling (σ : Oid → Oid) (st0 : List (Elem ι)) (hS : Static up σ st0)
+    (hD : ∃ t, DanglingAt up st0 st0 t) : resolveChain up st0 = .error .keyError := by
+  obtain ⟨_, h2⟩ := run_tasks up σ st0 hS (tasks st0) (nodup_tasks st0) st0 (inv_refl σ st0 hS.link)
+  obtain ⟨t, hd⟩ := hD
+  have ht : t ∈ tasks st0 := by
+    obtain ⟨f, _, hf, _⟩ := hd
+    exact mem_tasks_of_fieldAt st0 t f hf
+  unfold resolveChain
+  simp [h2 ⟨t, ht, hd⟩, bind, Except.bind]
+
+/-! ### the document -/
+
+theorem rebuild_elements (a : ADM ι) (st : List (Elem ι)) : (rebuild a st).elements = st := by
+  unfold rebuild ADM.elements
+  simp only [Nat.add_sub_cancel_left]
+  rw [← List.take_add, ← List.take_add, ← List.take_add, ← List.take_add, ← List.take_add, ← List.take_add,
+    List.take_append_drop]
+
+theorem dedupAll_of_distinct (a : ADM ι) (h : ∀ l ∈ a.lists, DistinctIds up l) : dedupAll up a = .ok a := by
+  unfold dedupAll
+  simp only [withoutDuplicates_of_distinct up _ (h a.programmes (by simp [ADM.lists])),
+    withoutDuplicates_of_distinct up _ (h a.contents (by simp [ADM.lists])),
+    withoutDuplicates_of_distinct up _ (h a.objects (by simp [ADM.lists])),
+    withoutDuplicates_of_distinct up _ (h a.packFormats (by simp [ADM.lists])),
+    withoutDuplicates_of_distinct up _ (h a.channelFormats (by simp [ADM.lists])),
+    withoutDuplicates_of_distinct up _ (h a.streamFormats (by simp [ADM.lists])),
+    withoutDuplicates_of_distinct up _ (h a.trackFormats (by simp [ADM.lists])),
+    withoutDuplicates_of_distinct up _ (h a.trackUIDs (by simp [ADM.lists])), bind, Except.bind, pure, Except.pure]
+
+theorem getElem?_of_fieldAt (st : List (Elem ι)) (t : Nat × Nat) (f : Field ι) (h : fieldAt st t = some f) :
+    ∃ e, st[t.1]? = some e ∧ e ∈ st ∧ f ∈ e.fields := by
+  unfold fieldAt at h
+  cases he : st[t.1]? with
+  | none => simp [he] at h
+  | some e =>
+    simp only [he, Option.bind_some] at h
+    exact ⟨e, rfl, List.mem_of_getElem? he, List.mem_of_getElem? h⟩
+
+/-- `Closed` from the element-wise condition: every id in a (non-alternativeValueSet) `IDRef` list is found -/
+theorem closed_of_forall (st0 : List (Elem ι))
+    (h : ∀ e ∈ st0, ∀ f ∈ e.fields, f.mode ≠ .avs → ∀ refs, f.pending = some refs → ∀ k, some k ∈ refs →
+      ∃ i, lookupIdx up st0 k = some i) : Closed up st0 := by
+  rintro ⟨t, f, refs, hf, hm, hp, r, hr, k, hk, hl⟩
+  obtain ⟨e, _, he, hfe⟩ := getElem?_of_fieldAt st0 t f hf
+  subst hk
+  obtain ⟨i, hi⟩ := h e he f hfe hm refs hp k hr
+  rw [hl] at hi; cases hi
+
+/-- `Static` from element-wise conditions -/
+theorem static_of_forall (σ : Oid → Oid) (st0 : List (Elem ι))
+    (hl : ∀ e ∈ st0, ∀ s, e.streamLink = some s → s = σ e.oid)
+    (hr : ∀ e ∈ st0, ∀ f ∈ e.fields, f.mode ≠ .avs → ∀ refs, f.pending = some refs → ∀ r ∈ refs,
+      RefOK up σ st0 e f.mode r) : Static up σ st0 :=
+  ⟨fun i e he s hs => hl e (List.mem_of_getElem? he) s hs,
+    fun i e he f hf hm refs hp r hr' => hr e (List.mem_of_getElem? he) f hf hm refs hp r hr'⟩
 
 end Earverif.AdmRefs
